@@ -57,10 +57,16 @@ func vfH_C12_expand(tier int) {
 	merged := map[string]DataType{} // reference merge
 	hasField := map[string]bool{}
 	tagSet := map[string]bool{}
-	for _, mn := range names {
+	for mi, mn := range names {
 		ms := &c12Meas{fields: map[string]DataType{}, tags: map[string]struct{}{}}
 		for _, fn := range []string{"a", "b"} {
-			if vfChoice(2) == 0 {
+			var present bool
+			if tier == 0 && mi == 1 {
+				present = fn == "a" // quick tier: the second measurement has exactly field a (type still symbolic)
+			} else {
+				present = vfChoice(2) == 0
+			}
+			if present {
 				t := c12Type()
 				ms.fields[fn] = t
 				if !hasField[fn] {
